@@ -775,7 +775,12 @@ func (fr *FuncRun) modifiesTargets(ctx *EvalCtx, m string) []modTarget {
 func (fr *FuncRun) modifiesHeapsOld(ctx *EvalCtx, m string) []string {
 	w := fr.w
 	if strings.HasPrefix(m, "heap:") {
-		return []string{strings.TrimPrefix(m, "heap:")}
+		h := strings.TrimPrefix(m, "heap:")
+		if _, known := w.heapSorts[h]; !known {
+			// a heap that this run never touches: nothing to forget, nothing to frame
+			return nil
+		}
+		return []string{h}
 	}
 	contents := false
 	if strings.HasPrefix(m, "contents(") && strings.HasSuffix(m, ")") {
@@ -1167,8 +1172,16 @@ func (fr *FuncRun) atCallAssumes(f *Frame, st *State, c *ssa.CallCommon, name st
 			}
 		}
 		ctx := &EvalCtx{fr: fr, f: top, st: st, old: top.entry, pkg: fr.eng.pkgOf(top.fn), binds: binds}
+		preLines, preReach := len(fr.lines), st.reach
 		fr.assume(st, fr.evalClause(ctx, ac.Clause))
 		fr.assumed[fmt.Sprintf("assumed at call %s in %s: %s", name, fr.fnName(), ac.Clause.Text)] = true
+		if fr.scout == 0 {
+			// vacuity guard: what is assumed about the call's results must not contradict the state
+			base := "assumed:" + name
+			fr.names["cover:"+base]++
+			fr.obls = append(fr.obls, &Obligation{Name: fmt.Sprintf("%s#cover:%s#%d", fr.fnName(), base, fr.names["cover:"+base]), Kind: "cover", Fn: fr.fnName(), Prefix: len(fr.lines), Reach: st.reach,
+				Cond: "false", PrePrefix: preLines, PreReach: preReach, Desc: "the clause assumed for the results of " + name + " does not contradict the state (vacuity guard)"})
+		}
 	}
 }
 
